@@ -36,8 +36,8 @@ def loop_signature(atts, ti, te, dyn, minTs):
     if te == ti:
         return SITE_TEPS          # the unfixed tolerance (te - ti) * 100 * eps is zero: the loop cannot end
     for k, (t, dt) in enumerate(atts):
-        if dyn and minTs < 0 and t + dt > te:
-            return SITE_CLAMP    # a step beyond te that the clamp `dt = te - t` should have shortened
+        if dyn and minTs < 0 and dt > te - t:
+            return SITE_CLAMP    # a step longer than the remaining time: the clamp `dt = te - t` should have fired
         if k > 0 and abs(te - t) <= tol:
             return SITE_TEPS      # te was reached up to rounding, and another attempt was made
     return None
@@ -491,7 +491,7 @@ def run(ck):
     harness = c48lib.build(ck, "c48h", os.path.join(vlib.VERIF, "harness", "C48", "harness.cxx"),
                            c48lib.MTEST_SOURCES)
     driver = ck.lean_exe("c48driver", "TfelVerif/C48/Driver.lean")
-    res = ck.lean(PROPS, PROPS)
+    res = c48lib.lean_checked(ck, PROPS)
     ck.lean_violations(res)
     if not ck.quick:
         for m, msg in ck.leanchecker(PROPS):
